@@ -442,6 +442,8 @@ async fn probe_task(
     while !calm.get() {
         Timer::after(Duration::from_millis(100)).await;
     }
+    // Handlers which are in the middle of an "accept late" sleep finish it first
+    Timer::after(Duration::from_millis(2_000)).await;
     let list: Vec<Workload> = (0..planted.len())
         .map(|i| Workload {
             id: PROBE_WL_BASE + i as u16,
